@@ -81,39 +81,52 @@ def tactic4 : Nat → PTerm → TL → List Var → Bool → List Var → Tactic
 
 /-! ### context reduction (tactics 1, 3, 5) -/
 
+/-- a working row of the elimination: (coefficients of the unknowns, aligned with the list of unknowns; remaining linear
+    part; constant), read as the equation  Σ ucₖ·uₖ + rest = c -/
+abbrev WRow := List Rat × Lin × Rat
+
+/-- one Gauss–Jordan step at column `k`: pivot = first row at index ≥ k with a non-zero entry in column k, swapped into
+    position k, normalised, and eliminated from every other row; `none` if the column has no pivot (singular) -/
+def gjStep (k : Nat) (m : List WRow) : Option (List WRow) :=
+  match (List.range m.length).find? (fun i => i ≥ k && (m[i]!).1[k]! != 0) with
+  | none => none
+  | some pi =>
+    let prow := m[pi]!
+    let m1 := (m.set pi (m[k]!)).set k prow
+    let p := prow.1[k]!
+    let prow' : WRow := (prow.1.map (· / p), scaleL (1 / p) prow.2.1, prow.2.2 / p)
+    some (m1.mapIdx fun i row =>
+      if i == k then prow' else
+        let f := row.1[k]!
+        if f == 0 then row else
+          (List.zipWith (fun a b => a - f * b) row.1 prow'.1, addL row.2.1 (scaleL (-f) prow'.2.1), row.2.2 - f * prow'.2.2))
+
+def gjGo (n : Nat) : Nat → Nat → List WRow → Option (List WRow)
+  | 0, _, m => some m
+  | fuel + 1, k, m =>
+    if k ≥ n then some m else
+    match gjStep k m with
+    | none => none
+    | some m2 => gjGo n fuel (k + 1) m2
+
+def unitVec (n k : Nat) : List Rat := (List.range n).map fun j => if j = k then 1 else 0
+
 /-- exact Gauss–Jordan on the rows read as equalities, solving for `unknowns`; every other variable is a parameter.
     Returns, per unknown, the substituting term `(E, s)` meaning `x = E - s`; `none` if the system is not square or is
-    singular (sympy's answer there is not modelled). -/
+    singular (sympy's answer there is not modelled).  The final test that the unknown part has become the identity never
+    fails for a completed elimination; it is there so that the result can be trusted without trusting the elimination. -/
 def solveRows (rows : TL) (unknowns : List Var) : Option (List (Var × PTerm)) :=
   if rows.length != unknowns.length then none else
-  -- each working row: (coefficients of unknowns as a list aligned with `unknowns`, remaining linear part, constant)
-  let init : List (List Rat × Lin × Rat) := rows.map fun r =>
-    (unknowns.map fun u => r.coeff u, r.coeffs.filter (fun p => !decide (p.1 ∈ unknowns)), r.const)
   let n := unknowns.length
-  let rec go (k : Nat) (fuel : Nat) (m : List (List Rat × Lin × Rat)) : Option (List (List Rat × Lin × Rat)) :=
-    match fuel with
-    | 0 => some m
-    | fuel + 1 =>
-      if k ≥ n then some m else
-      -- pivot: first row at index ≥ k with non-zero entry in column k
-      match (List.range m.length).find? (fun i => i ≥ k && (m[i]!).1[k]! != 0) with
-      | none => none
-      | some pi =>
-        let prow := m[pi]!
-        let m1 := (m.set pi (m[k]!)).set k prow
-        let p := prow.1[k]!
-        let prow' : List Rat × Lin × Rat := (prow.1.map (· / p), scaleL (1 / p) prow.2.1, prow.2.2 / p)
-        let m2 := m1.mapIdx fun i row =>
-          if i == k then prow' else
-            let f := row.1[k]!
-            if f == 0 then row else
-              (List.zipWith (fun a b => a - f * b) row.1 prow'.1, addL row.2.1 (scaleL (-f) prow'.2.1), row.2.2 - f * prow'.2.2)
-        go (k + 1) fuel m2
-  match go 0 n init with
+  let init : List WRow := rows.map fun r =>
+    (unknowns.map fun u => r.coeff u, r.coeffs.filter (fun p => !decide (p.1 ∈ unknowns)), r.const)
+  match gjGo n n 0 init with
   | none => none
   | some m =>
-    -- row k now reads  u_k + rest_k = c_k   →   u_k = -rest_k + c_k  = E - s  with E = -rest_k, s = -c_k
-    some ((List.range n).map fun k => (unknowns[k]!, PTerm.mk' (scaleL (-1) (m[k]!).2.1) (-(m[k]!).2.2)))
+    if (List.range n).all (fun k => (m[k]!).1 == unitVec n k) then
+      -- row k now reads  u_k + rest_k = c_k   →   u_k = -rest_k + c_k  = E - s  with E = -rest_k, s = -c_k
+      some ((List.range n).map fun k => (unknowns[k]!, PTerm.mk' (scaleL (-1) (m[k]!).2.1) (-(m[k]!).2.2)))
+    else none
 
 /-- `PolyhedralTerm.solve_for_variables` + the substitution loop of `_context_reduction` -/
 def reduceWith (t : PTerm) (rows : TL) (forbidden : List Var) : TacticRes :=
